@@ -393,4 +393,41 @@ Proof.
   - unfold new_cache in Hn. destruct (t_alloc E cap true); try discriminate. injection Hn as <-. reflexivity.
   - cbn [sm_of]. exact (step_sm s p o s' out evs (sm_of h) (reach_inv E VS E_pos VS_le_E s (hist_reach h s HH)) Hwf Hs IH q).
 Qed.
+
+(* ---------- consequences: who is least recently used, who is evicted ---------- *)
+Lemma sorted_subl {A} (R : A -> A -> Prop) (S L : list A) : subl S L -> StronglySorted R L -> StronglySorted R S.
+Proof.
+  induction 1 as [|x S L Hs IH|x S L Hs IH]; intros HL; [constructor| |]; inversion HL as [|? ? HL' Hall]; subst; [auto|].
+  constructor; [auto|]. apply Forall_forall. intros y Hy. exact (proj1 (Forall_forall _ _) Hall y (subl_in _ _ _ Hs Hy)).
+Qed.
+Lemma sorted_app_lt {A} (R : A -> A -> Prop) (a b : list A) : StronglySorted R (a ++ b) -> forall x y, In x a -> In y b -> R x y.
+Proof.
+  induction a as [|z a IH]; intros Hs x y Hx Hy; [destruct Hx|]. cbn [app] in Hs. inversion Hs as [|? ? Hs' Hall]; subst.
+  destruct Hx as [<-|Hx]; [|now apply IH]. apply (proj1 (Forall_forall _ _) Hall). apply in_or_app. now right.
+Qed.
+
+(* peek_lru / the head of the order is the key whose last access is the oldest; the last is the newest *)
+Theorem lru_is_least_recently_accessed h s e r : Hist h s -> ents s = e :: r ->
+  forall q, In q (kids r) -> (last_access h (kid (ek e)) < last_access h q)%nat.
+Proof.
+  intros HH He q Hq. destruct (order_is_last_access h s HH) as [Hs _]. rewrite He, kids_cons in Hs.
+  inversion Hs as [|? ? _ Hall]; subst. exact (proj1 (Forall_forall _ _) Hall q Hq).
+Qed.
+Theorem mru_is_most_recently_accessed h s l e : Hist h s -> ents s = l ++ [e] ->
+  forall q, In q (kids l) -> (last_access h q < last_access h (kid (ek e)))%nat.
+Proof.
+  intros HH He q Hq. destruct (order_is_last_access h s HH) as [Hs _]. rewrite He, kids_app in Hs.
+  apply (sorted_app_lt _ _ _ Hs q (kid (ek e)) Hq). now left.
+Qed.
+
+(* whatever an insertion, a growing mutate or a lowered limit evicts was accessed less recently than every old entry that
+   stays: with l0 the old entries other than the one being replaced / mutated (a sublist of the old order), split by the
+   eviction into the evicted prefix and the rest *)
+Theorem evicted_are_least_recently_accessed h s l0 evd rest tgt : Hist h s -> subl l0 (ents s) -> minimal_prefix l0 evd rest tgt ->
+  forall a b, In a (kids evd) -> In b (kids rest) -> (last_access h a < last_access h b)%nat.
+Proof.
+  intros HH Hs0 (Hl & _) a b Ha Hb. destruct (order_is_last_access h s HH) as [Hs _].
+  pose proof (sorted_subl _ _ _ (subl_map (fun e => kid (ek e)) _ _ Hs0) Hs) as Hs'. fold (kids l0) in Hs'. rewrite Hl, kids_app in Hs'.
+  exact (sorted_app_lt _ _ _ Hs' a b Ha Hb).
+Qed.
 End Params.
